@@ -10,7 +10,7 @@ from hypothesis import strategies as st
 
 from .. import spec as SP
 from .. import unit as U
-from ..core import Failure, drive, drive_enum
+from ..core import sstr, Failure, drive, drive_enum
 from ..gen import models as M
 from . import c12, c15
 
@@ -56,12 +56,17 @@ for _k, _v in EEMS2.items():
         V2_OF[_v] = _k
 
 
-def v2_line(cmd, name, args, new_field=True, out_file=None):
+def v2_line(cmd, name, args, new_field=True, out_file=None, pos=None):
+    """pos: (position of NewFieldName, position of OutFileName) among the arguments; None = at the end."""
     parts = ["%s = %s" % (k, c12.fmt(v)) for k, v in args]
+    extra = []
     if new_field:
-        parts.append("NewFieldName = %s" % name)
+        extra.append("NewFieldName = %s" % name)
     if out_file:
-        parts.append('OutFileName = "%s"' % out_file)
+        extra.append('OutFileName = "%s"' % out_file)
+    for k, e in enumerate(extra):
+        where = len(parts) if pos is None else pos[k % len(pos)] % (len(parts) + 1)
+        parts.insert(where, e)
     return "%s(%s)" % (cmd, ", ".join(parts))
 
 
@@ -86,7 +91,7 @@ def check_name(case, rec):
     except CommandDoesNotExist as exc:
         return [Failure("name_unmapped|%s" % v2, "%s resolves to %r, which does not exist in %s" % (v2, exc.name, io.split(".")[-1]))]
     except (MPilotError, SyntaxError) as exc:
-        return [Failure("name_load_fails:%s|%s" % (type(exc).__name__, v2), "%s\n%s" % (str(exc)[:200], text))]
+        return [Failure("name_load_fails:%s|%s" % (type(exc).__name__, v2), "%s\n%s" % (sstr(exc)[:200], text))]
     if "X" not in p.commands:
         return [Failure("result_name|%s" % v2, "commands: %r" % list(p.commands))]
     got = type(p.commands["X"]).__name__
@@ -136,7 +141,7 @@ def renderings(case):
         if c["cmd"] in V2_OF and (st_.get("v2", True) or c["cmd"] == "EEMSRead"):
             omit = c["cmd"] == "EEMSRead" and c["name"] in rename
             v2_lines.append(v2_line(V2_OF[c["cmd"]], name, args, new_field=not omit,
-                                    out_file="ignored_%d.csv" % k if st_.get("out_file") else None))
+                                    out_file="ignored_%d.csv" % k if st_.get("out_file") else None, pos=st_.get("pos")))
         else:
             v2_lines.append(v3_lines[-1])
     return "\n".join(v2_lines) + "\n", "\n".join(v3_lines) + "\n", names
@@ -161,7 +166,7 @@ def check_model(case, rec):
         try:
             p2 = Program.from_source(v2_text, libraries=EEMS_CSV_LIBRARIES, working_dir=tmp)
         except Exception as exc:
-            return [Failure("v2_load_raises:%s" % type(exc).__name__, "%s\n%s" % (str(exc)[:200], v2_text))]
+            return [Failure("v2_load_raises:%s" % type(exc).__name__, "%s\n%s" % (sstr(exc)[:200], v2_text))]
         mixed = any("=" in l.split("(")[0] for l in v2_text.splitlines())
         omitted = any(l.startswith("READ(") and "NewFieldName" not in l for l in v2_text.splitlines())
         outfile = "OutFileName" in v2_text and "ignored_" in v2_text
@@ -170,6 +175,9 @@ def check_model(case, rec):
             rec.label("read_without_new_field_name")
         if outfile:
             rec.label("out_file_name_dropped")
+        if any(l.split("(", 1)[0] in EEMS2 and "NewFieldName" in l and "InFieldName =" in l
+               and l.index("NewFieldName") < l.index("InFieldName =") for l in v2_text.splitlines()):
+            rec.label("new_field_name_before_in_field_name")
         if len(names) >= 3 and (omitted or outfile or mixed):
             rec.nontrivial_case(case)
             rec.label("nontrivial", sample={"v2": v2_text} if len(v2_text) < 600 else None)
@@ -187,7 +195,7 @@ def check_model(case, rec):
         try:
             p2.run()
         except Exception as exc:
-            return [Failure("v2_run_raises:%s" % type(exc).__name__, "%s\n%s" % (str(exc)[:200], v2_text))]
+            return [Failure("v2_run_raises:%s" % type(exc).__name__, "%s\n%s" % (sstr(exc)[:200], v2_text))]
         for n in names:
             a, b = p3.commands[n].result, p2.commands[n].result
             if not (isinstance(a, numpy.ndarray) and isinstance(b, numpy.ndarray) and U.result_equal(a, b, 0.0)):
@@ -207,7 +215,8 @@ def model_cases(draw):
     model = draw(M.typed_models(max_nodes=7, cmds=cmds, with_meta=False, clean=True))
     styles = draw(st.lists(st.fixed_dictionaries({
         "v2": st.sampled_from([True, True, True, not mixed or False]) if mixed else st.just(True),
-        "omit_new_field": st.booleans(), "out_file": st.sampled_from([False, False, True])}), min_size=3, max_size=10))
+        "omit_new_field": st.booleans(), "out_file": st.sampled_from([False, False, True]),
+        "pos": st.one_of(st.none(), st.lists(st.integers(0, 6), min_size=2, max_size=2))}), min_size=3, max_size=10))
     return {"model": model, "styles": styles}
 
 
